@@ -1,6 +1,15 @@
 #!/bin/bash
-# usage: mut.sh <prop> <file-under-/repo> <sed-expr>  — apply a one-off mutation, run the check, revert
-prop=$1; f=$2; expr=$3
-cd /repo && sed -i "$expr" "$f" && git diff --stat | tail -1
-cd /verif && ./check.sh $prop quick 2>&1 | grep -v "^KNOWN" | cut -c1-300 | head -${4:-8}
-git -C /repo checkout -- .
+# usage: mut.sh <prop[,prop...]> <file-under-/repo> <sed-expr> [lines]
+# One-off mutation for testing the checker: the sed expression is applied to a scratch COPY of the file, the
+# resulting diff is handed to `ibcverif check --patch` (in-memory overlay). /repo is never modified.
+props=$1; f=$2; expr=$3
+. /verif/env.sh
+t=$(mktemp -d /tmp/mut.XXXXXX); mkdir -p $t/a/$(dirname $f) $t/b/$(dirname $f)
+cp /repo/$f $t/a/$f; sed "$expr" /repo/$f > $t/b/$f
+(cd $t && diff -u a/$f b/$f > m.diff)
+if [ ! -s $t/m.diff ]; then echo "mutation changed nothing"; rm -rf $t; exit 2; fi
+grep -c '^[-+][^-+]' $t/m.diff | sed 's/^/changed lines: /'
+for p in ${props//,/ }; do
+  /verif/bin/ibcverif check $p --patch $t/m.diff 2>&1 | grep -v "^KNOWN\|^analysing" | cut -c1-300 | head -${4:-8}
+done
+rm -rf $t
